@@ -18,11 +18,13 @@ import (
 )
 
 type World struct {
+	plumb    map[*ssa.Function]bool
+	plumbSum map[*ssa.Function]*Expr
 	outCache map[[2]any]*outSum
-	P     *load.Program
-	Prog  *ssa.Program
-	Funcs []*ssa.Function // every SSA function (incl. closures, methods) of repo + fixture packages
-	inSet map[*ssa.Function]bool
+	P        *load.Program
+	Prog     *ssa.Program
+	Funcs    []*ssa.Function // every SSA function (incl. closures, methods) of repo + fixture packages
+	inSet    map[*ssa.Function]bool
 
 	// named (non-interface) types declared in repo/fixture packages, for CHA
 	namedTypes []*types.Named
